@@ -163,16 +163,38 @@ def midstep(p0: int, p1: int, p2: int, p3: int, actor: int, target: int, pn: int
     # still registered then.  This yields (2) every system that stays registered runs exactly once, in priority
     # order, and (3) a system removed before its turn does not run.
     reg = list(before)
+    again = []              # systems removed and registered again earlier in this timestep ("newly registered")
     exp = []
     for s in before:
         if s in reg:
             exp.append(s)
+            acts_now = True
+        elif s in again:
+            # whether a re-registered system runs in that timestep is left open: the reference follows what happened,
+            # because IF it ran, its own action took effect on the systems after it
+            acts_now = False
+            for x in log:
+                if x is s:
+                    acts_now = True
+        else:
+            acts_now = False
+        if acts_now:
             for who, kind, tgt in plan:
                 if who is s:
-                    if kind == 'self' and s in reg:
-                        reg.remove(s)
-                    elif kind in ('remove', 'replace', 'readd') and tgt in reg:
-                        reg.remove(tgt)
+                    if kind == 'self':
+                        if s in reg:
+                            reg.remove(s)
+                        elif s in again:
+                            again.remove(s)
+                    elif kind in ('remove', 'replace'):
+                        if tgt in reg:
+                            reg.remove(tgt)
+                        elif tgt in again:
+                            again.remove(tgt)
+                    elif kind == 'readd':
+                        if tgt in reg:
+                            reg.remove(tgt)
+                            again.append(tgt)
     # a system removed and re-registered in the same timestep counts as newly registered: whether it runs in that
     # timestep is left open - but it never runs twice (1), and it is left out of the comparison below
     got = [x for x in log if x in before and x not in readded]
@@ -252,7 +274,11 @@ def obligations(tier):
     if tier != "quick":
         parts += [{"n": 3, "kinds": ["remove", "add_taken"]}]
     if tier != "quick":
-        parts += [{"n": 3, "kinds": [a, b], "multi": True} for a, b in two] + [{"n": 3, "kinds": [a, b], "other_model": True} for a, b in two]
+        # (all 25 ordered pairs for n = 3 above; with execute(2) / a second model stepped from inside, a spread of 8 pairs -
+        # the full set did not finish within the time limit)
+        few = [("self", "remove"), ("remove", "add"), ("add", "self"), ("replace", "readd"), ("readd", "remove"), ("add", "add"),
+               ("replace", "self"), ("remove", "replace")]
+        parts += [{"n": 3, "kinds": [a, b], "multi": True} for a, b in few] + [{"n": 3, "kinds": [a, b], "other_model": True} for a, b in few]
 
     def lab(p):
         ks = p["kinds"]
@@ -266,5 +292,5 @@ def obligations(tier):
         if "add_taken" in ks:
             out.append("refused")
         return tuple(out)
-    return [X("midstep", midstep, parts=parts, labels=("removed", "added", "readded", "refused"), labels_for=lab, timeout=600, group=1,
+    return [X("midstep", midstep, parts=parts, labels=("removed", "added", "readded", "refused"), labels_for=lab, timeout=600 if tier == "quick" else 1200, group=1,
               encoded=enc, bounds={"n": "1..%d" % ns[-1]})]
